@@ -266,8 +266,8 @@ def oracle(case, out):
     if out.get("hang"):
         return f"the scheduler did not return within the {out['watchdog_s']} s watchdog"
     bump = case["bump"]
-    pending = {}      # id -> (due, seqno)
-    cancelled = set()  # ids cancelled while pending
+    ht = vc.HandleTracker()
+    pending, cancelled = ht.pending, ht.cancelled      # id -> (due, seqno); ids cancelled while pending
     clock = None
     cur = None        # current top-level op record
     spin_possible = False
@@ -284,12 +284,13 @@ def oracle(case, out):
             spin_possible = name == "start"
         elif k == "sched":
             _, nid, due, seqno = ev
-            pending[nid] = (due, seqno)
-            cancelled.discard(nid)
+            ht.sched(nid, (due, seqno))
         elif k == "cancel":
-            if ev[1] in pending:
-                cancelled.add(ev[1])
-                ncancel += 1
+            ht.cancel(ev[1])
+            ncancel = ht.ncancel
+        elif k == "ret":
+            ht.ret(ev[1], ev[2])
+            ncancel = ht.ncancel
         elif k == "stop":
             if cur is not None:
                 cur["stopped"] = True
